@@ -146,14 +146,30 @@ def make_plan(seed: int, tier: str, index: int) -> dict[str, Any]:
         variants.append({"name": "G", "text": text_of(g_rows), "junk": [gl], "like": "D",
                          "fault": "garble_line"})
     concurrent = index % 4 == 3
+    log_off_first = False
+    if not concurrent and f.random() < 0.15 and len(variants) >= 2:
+        # an allocation failure inside the recogniser of some line of variant A: the parse may
+        # fail; if it returns, every line must still have contributed its datum or been reported
+        variants.append({"name": "A!", "text": variants[1]["text"], "junk": variants[1]["junk"],
+                         "like": "A", "fault": "abort_in_recogniser",
+                         "abort": {"in": f.choice(["from_chart_line", "from_chart_line", "parse_data_from"]),
+                                   "at": f.choice([1, 2, 3, 5, 8, 13, 21, 34, 55]),
+                                   "exc": f.choice(["MemoryError", "MemoryError", "SimAbort"])}})
+    elif not concurrent and f.random() < 0.12:
+        # logging state is part of the process history: the first chart of the process is parsed
+        # while the application has logging switched off; then logging is switched on again
+        log_off_first = True
     schedule: dict[str, Any] = {"mode": "sequential", "seed": 0, "p_boundary": 0.0}
+    if any(v.get("abort") for v in variants):
+        schedule = {"mode": "geometric", "seed": 0, "gap": 10**9}  # one client: tracing on, no switch
     if concurrent:
         schedule = {"mode": "geometric", "seed": s.getrandbits(32), "gap": s.choice([5, 30, 200])}
         if s.random() < 0.35:
             schedule = {"mode": "writes", "seed": s.getrandbits(32), "p": s.choice([0.1, 0.3, 0.6]),
                         "hold": s.choice([20, 200, 1000, 4000])}
     plan = {"property": PROP, "seed": seed, "target": target, "family": fam, "variants": variants,
-            "concurrent": concurrent, "schedule": schedule, "permute_seed": f.getrandbits(16)}
+            "concurrent": concurrent, "schedule": schedule, "permute_seed": f.getrandbits(16),
+            "log_off_first": log_off_first}
     if f.random() < 0.2:
         # every variant is read through a reader whose sized reads / readline return short
         # (legal): inserting junk shifts where those short reads end
@@ -188,7 +204,9 @@ def execute(plan: dict[str, Any]) -> dict[str, Any]:
             if fam == "song":
                 o = observe_chart(chart)
                 out["digest"] = rng.digest({k: x for k, x in o.items() if k not in ("meta", "str", "repr")})
-        except Exception as e:  # noqa: BLE001
+        except HarnessError:
+            raise
+        except BaseException as e:  # noqa: BLE001 - injected aborts are BaseExceptions
             out = {"kind": "exc", "type": type(e).__name__, "exc": exc_token(e)}
         out["log"] = [r for r in logref[n0:]]
         results[v["name"]] = out
@@ -201,9 +219,22 @@ def execute(plan: dict[str, Any]) -> dict[str, Any]:
 
     def body_for(ci: int) -> Any:
         def body(client: Any) -> None:
+            if ci == 0 and n_clients == 1 and plan.get("log_off_first") and len(variants) >= 2:
+                import logging
+
+                logging.disable(logging.CRITICAL)
+                try:
+                    with monitors.bypass():  # nothing is reported while logging is off: not judged
+                        world.parse_text(variants[1]["text"])
+                except Exception:  # noqa: BLE001
+                    pass
+                finally:
+                    logging.disable(logging.NOTSET)
+                del client.log[:]
             for k, v in enumerate(parts[ci]):
-                sched.begin_op(client, k)
+                sched.begin_op(client, k, v.get("abort"))
                 parse_variant(v)
+                results[v["name"]]["aborted"] = client.abort_fired_at is not None
                 sched.end_op(client)
                 sched.record("op", ci, k, v["name"], results[v["name"]]["kind"],
                              results[v["name"]].get("digest"))
@@ -259,6 +290,17 @@ def execute(plan: dict[str, Any]) -> dict[str, Any]:
             if like is None or like not in results:
                 continue
             ref = results[like]
+            if v.get("abort"):
+                if not r.get("aborted"):
+                    continue  # the fault point was not reached: nothing to judge here
+                fired["abort_in_recogniser_fired"] = fired.get("abort_in_recogniser_fired", 0) + 1
+                if r["kind"] == "ok" and ref["kind"] == "ok" and (
+                        r.get("digest") != ref.get("digest") or _n_reports(r) != _n_reports(ref)):
+                    add("locality", "fault-swallowed",
+                        f"variant {v['name']}: {v['abort']['exc']} injected in a recogniser was swallowed "
+                        f"and the parse returned {_short(r)} with {_n_reports(r)} report(s); the same file "
+                        f"without the fault gives {_short(ref)} with {_n_reports(ref)} report(s)")
+                continue
             strict_only = all(j["strict"] for j in v["junk"])
             # "reported once": counted, never matched by text (the wording of a report is not part
             # of the property): the variant must produce exactly one renderable report more than
@@ -287,6 +329,7 @@ def execute(plan: dict[str, Any]) -> dict[str, Any]:
     probes = dict(mon.probes)
     probes["dispatcher_calls"] = len(mon.calls)
     probes["short_reading_reader_runs"] = 1 if plan.get("reader_chunk") else 0
+    probes["first_parse_with_logging_off_runs"] = 1 if plan.get("log_off_first") else 0
     sched.record("violations", [x["sig"] for x in violations])
     return {
         "violations": violations[:4],
